@@ -351,6 +351,18 @@ pub fn subjects(thorough: bool) -> Vec<Subject> {
             v.push(Subject { name: format!("lib-big-meta-{size}/{}", cname(c)), bytes: write_lib(&l, Api::Sync).unwrap(), case: json!({"lib":"big-meta","size":size,"comp":cname(c)}) });
         }
     }
+    // tiles above 1 MiB (not a multiple of it) followed by further tiles
+    {
+        let mut l = small_logical(Compression::GZip);
+        l.tiles.insert(7, crate::common::xorshift_bytes(77, (1 << 20) + 5));
+        l.tiles.insert(8, b"behind-the-big-one".to_vec());
+        l.tiles.insert(9, crate::common::xorshift_bytes(78, (2 << 20) + 4097));
+        l.tiles.insert(10, b"last".to_vec());
+        v.push(Subject { name: "lib-tiles-above-1MiB/gzip".into(), bytes: write_lib(&l, Api::Sync).unwrap(), case: json!({"lib":"huge-tiles"}) });
+    }
+    for comp in 1..=4u8 {
+        v.push(Subject { name: format!("foreign/mixed-shorthand/c{comp}"), bytes: foreign::mixed_shorthand(comp).bytes, case: json!({"foreign":"mixed-shorthand","comp":comp}) });
+    }
     for c in [Compression::None, Compression::GZip] {
         let n = crossing(1, c, &window_logical_entries) + 10;
         let l = window_logical(1, n, c);
